@@ -4,13 +4,19 @@ spec/Imports.tla is the operational specification: POSIX path resolution over a 
 tree, the search order of the property (importing file's directory, then -J right-most
 first, absolute paths bypass the search), a small evaluator (file bodies, manifestation,
 `.lazy` selections, strict bodies) with the import cache keyed by file identity, and the
-content functions (importstr = lossy UTF-8 text, importbin = bytes).
+content functions (importstr = lossy UTF-8 text, importbin = bytes).  A file is an
+"importing file" whether it is the program, was imported, or was handed over with
+--ext-code-file / --tla-code-file: the options are bound first (the file is loaded by its
+command-line path, not evaluated), its value is computed at the first demand by
+std.extVar / the top-level parameter / an import of the same file, once.
 
  (a) TLC explores every behaviour of every scenario of MC_Imports (trees x -J orders x
      importer x spelling x kind; special entries; absolute invocations; the same file
-     reached two or three times; import cycles; binary content) and checks the invariants
-     (load once, cache keyed by identity, thisFile = first path, resolution independent of
-     history, error names the import statement) and the laws of Resolve / Utf8Lossy.
+     reached two or three times; import cycles; binary content; code files given on the
+     command line) and checks the invariants (load once, cache keyed by identity,
+     thisFile = first path, resolution independent of history, error names the import
+     statement / the option, options bound before anything is evaluated) and the laws of
+     Resolve / Utf8Lossy.
  (b) every finished behaviour is emitted as a case; the tree is materialised under
      work/c13/tmp<pid>/ and the real binary is run on it; exit status, manifested value
      (which file was picked, std.thisFile, text / bytes), the number of `TRACE: T<tag>`
@@ -26,13 +32,14 @@ from vlib import Check, run_tlc, tlc_must_pass
 
 PROP = "C13"
 BATCH = 50
-QUOTA = {"search": 420, "special": 300, "invoc": 100, "pairs": 200, "cycles": 120, "data": 60, "laws": 48}
-ACTIONS = ("ForceStmt", "FinishLoad", "DemandStmt", "FinishManifest", "Import", "FollowLazy",
-           "DeliverForced", "DeliverManifest", "ManifestCycle")
+QUOTA = {"search": 420, "special": 300, "invoc": 100, "pairs": 200, "cycles": 120, "data": 60, "laws": 48,
+         "codefile": 700}
+ACTIONS = ("BindCodeFile", "StartMain", "ForceStmt", "FinishLoad", "DemandStmt", "FinishManifest", "Import",
+           "Demand", "FollowLazy", "DeliverForced", "DeliverManifest", "ManifestCycle")
 
 
 def case_key(c):
-    return json.dumps([c["fam"], c["fs"], c["jp"], c["main"]], sort_keys=True)
+    return json.dumps([c["fam"], c["fs"], c["jp"], c["main"], c.get("opts", [])], sort_keys=True)
 
 
 def canon(c):
@@ -43,13 +50,43 @@ def canon(c):
 
 
 def nontrivial(c):
-    if c["status"] != "ok" or c["hits"] > 0 or c["skipped"] > 0:
+    if c["status"] != "ok" or c["hits"] > 0 or c["skipped"] > 0 or c.get("opts"):
         return True
     for x in c["fs"]:
         e = x["v"]
         if e["t"] == "link" or any(b >= 128 for b in e["bytes"]):
             return True
     return False
+
+
+def codefile_classes(c):
+    """Which situations of the code-file route a scenario exercises (vacuity accounting)."""
+    out = set()
+    fs = {tuple(x["p"]): x["v"] for x in c["fs"]}
+    loads = {tuple(x["p"]): x["v"] for x in c["loads"]}
+    bound = {}
+    for b in c["binds"]:
+        bound.setdefault(tuple(b["n"]), []).append(b["i"])
+    if c["status"] == "error" and not c["err"]["file"]:
+        out.add("option_missing" if c["err"]["class"] == "notfound" else "option_is_directory")
+    main = tuple(c["main"][1:] if c["main"][0] == "/" else c["main"])
+    for n, idx in bound.items():
+        if n == main:
+            out.add("is_main_file")
+            continue
+        if len(idx) > 1:
+            out.add("two_options_one_file")
+        if c["status"] == "ok" and loads.get(n) == 0:
+            out.add("never_evaluated")
+        if loads.get(n) == 1:
+            if any(s["kind"] in ("import", "str", "bin") and len(s["sp"]) <= 2 and s["sp"][0] != "/" for s in fs[n]["eager"]):
+                out.add("sibling_import_inside")
+            demanded = any(s["kind"] in ("ext", "tla") for x in fs.values() for s in x["eager"] + x["lazy"])
+            imported = any(s["kind"] == "import" and s["sp"][-1] == n[-1]
+                           for x in fs.values() for s in x["eager"] + x["lazy"])
+            if demanded and imported and c["status"] == "ok":
+                out.add("demanded_and_imported")
+    return out
 
 
 def run_one(args):
@@ -72,6 +109,8 @@ def describe(c):
         p = "/".join(x["p"])
         if e["t"] == "file" and e["code"]:
             st = "; ".join(f"{s['kind']} {'/'.join(s['sp'])}" + ".lazy" * s["chain"] for s in e["eager"])
+            if p == "/".join(c["main"]).lstrip("/") and any(o["route"] == "tla" for o in c.get("opts", [])):
+                st = "function(" + ", ".join(o["var"] for o in c["opts"] if o["route"] == "tla") + ") " + st
             lz = "; ".join(f"lazy {s['kind']} {'/'.join(s['sp'])}" for s in e["lazy"])
             files.append(f"{p}[T{e['tag']}{' strict' if e['strict'] else ''}: {st}{' | ' + lz if lz else ''}]")
         elif e["t"] == "file":
@@ -81,15 +120,17 @@ def describe(c):
         elif p in ("main/a.libsonnet", "main/sub/a.libsonnet", "L1/a.libsonnet", "L2/a.libsonnet"):
             files.append(p + "/ (directory)")
     jp = " ".join("-J " + "/".join(j) for j in c["jp"])
+    for o in c.get("opts", []):
+        jp += f" {iu.OPT_FLAG[o['route']]} {o['var']}={'/'.join(o['path'])}"
     return f"{c['fam']}: rsjsonnet {jp} {'/'.join(c['main'])} | " + ", ".join(files)
 
 
 def run(tier, seed):
     chk = Check(PROP, tier, seed)
-    chk.rule = ("one case = one scenario of MC_Imports (tree, -J list, main path, import statements); distinct = "
-                "(family, tree, -J, main); non-trivial = the run fails, or a resolution passed over at least one "
-                "candidate, or an import was answered from the cache, or the tree has a symbolic link, or the "
-                "content has non-ASCII bytes")
+    chk.rule = ("one case = one scenario of MC_Imports (tree, -J list, main path, code-file options, statements); "
+                "distinct = (family, tree, -J, main, options); non-trivial = the run fails, or a resolution passed "
+                "over at least one candidate, or a request was answered from the cache, or the tree has a symbolic "
+                "link, or the content has non-ASCII bytes, or a code file is given on the command line")
     chk.assumptions = [
         "`.` components and repeated separators are not significant when std.thisFile / reported paths are compared",
         "generated library files are ASCII: `std.trace(\"T<tag>\", {tag, thisFile, eager: [imports], lazy:: import})`; "
@@ -97,13 +138,18 @@ def run(tier, seed):
         "the process runs as root: an unreadable file is represented by a directory / a dangling link",
         "sources without a directory (-e, stdin) and a data file evaluated with `import` are outside the decided domain",
         "for a failing run only `at most once, and only files the specification had started to load` is required of the TRACE lines",
+        "code files: --ext-code-file options are bound before --tla-code-file options, each kind in command-line order "
+        "(so, of two options naming one file, that one's spelling is std.thisFile); option names are distinct; with "
+        "top-level arguments the main file is `function(<names>) <the same body>` and importing it again is outside "
+        "the decided domain; a code-file option that cannot be read is reported on stderr with the path as spelled, "
+        "exit status 1, no output and no evaluation at all",
     ]
     vlib.build_cli()
     main_cfg = "MC_Imports_full.cfg" if tier == "thorough" else f"MC_Imports_q{seed % 4}.cfg"
     cont_cfg = "MC_Imports_content4.cfg" if tier == "thorough" else "MC_Imports_content3.cfg"
     with concurrent.futures.ThreadPoolExecutor(max_workers=2) as ex:
-        f1 = ex.submit(run_tlc, "MC_Imports", main_cfg, "c13_main", workers=6, timeout=3000)
-        f2 = ex.submit(run_tlc, "MC_Imports", cont_cfg, "c13_content", workers=2, timeout=3000)
+        f1 = ex.submit(run_tlc, "MC_Imports", main_cfg, "c13_main", workers=3, timeout=3000)
+        f2 = ex.submit(run_tlc, "MC_Imports", cont_cfg, "c13_content", workers=1, timeout=3000)
         res_main, res_cont = f1.result(), f2.result()
     tlc_must_pass(res_main, "Imports model " + main_cfg)
     tlc_must_pass(res_cont, "Imports content model " + cont_cfg)
@@ -139,6 +185,15 @@ def run(tier, seed):
             raise vlib.ToolError(f"vacuity: no scenario with outcome {need}")
     if not any(c["hits"] > 0 for c in selected) or not any(c["skipped"] > 0 for c in selected):
         raise vlib.ToolError("vacuity: no cache hit / no search that passes over a candidate")
+    cf_classes = {k: 0 for k in ("option_missing", "option_is_directory", "never_evaluated", "demanded_and_imported",
+                                 "two_options_one_file", "sibling_import_inside", "is_main_file")}
+    for c in selected:
+        if c["fam"] == "codefile":
+            for k in codefile_classes(c):
+                cf_classes[k] += 1
+    for k, n in cf_classes.items():
+        if n == 0:
+            raise vlib.ToolError(f"vacuity: no codefile scenario of class {k}")
 
     tmp = vlib.workdir("c13", f"tmp{os.getpid()}")
     jobs = [(c, os.path.join(tmp, f"case{i}")) for i, c in enumerate(selected)]
@@ -200,6 +255,7 @@ def run(tier, seed):
     chk.extra["outcome_classes"] = classes
     chk.extra["with_cache_hit"] = sum(1 for c in selected if c["hits"] > 0)
     chk.extra["with_skipped_candidate"] = sum(1 for c in selected if c["skipped"] > 0)
+    chk.extra["codefile_classes"] = cf_classes
     chk.extra["content_ill_formed"] = ill_formed
     chk.extra["content_well_formed"] = len(content) - ill_formed
     chk.extra["model_cfgs"] = [main_cfg, cont_cfg]
@@ -207,6 +263,8 @@ def run(tier, seed):
     picks += [c for c in selected if c["fam"] == "pairs" and c["hits"] > 0][:1]
     picks += [c for c in selected if c["fam"] == "special" and c["err"]["class"] == "isdir"][:1]
     picks += [c for c in selected if c["fam"] == "cycles" and c["err"]["class"] == "cycle"][:1]
+    picks += [c for c in selected if c["fam"] == "codefile" and "demanded_and_imported" in codefile_classes(c)][:1]
+    picks += [c for c in selected if c["fam"] == "codefile" and "option_missing" in codefile_classes(c)][:1]
     for c in picks:
         chk.sample({"scenario": describe(c), "expected": c["status"] + (":" + c["err"]["class"] if c["err"]["class"] else ""),
                     "loads": {"/".join(x["p"]): x["v"] for x in c["loads"]},
